@@ -187,10 +187,13 @@ func (x *Unit) evalBuiltin(st *State, call *ast.CallExpr, name string, n int) []
 			}
 			return []Val{x.newMap(st, t, x.emptyMapContent(t))}
 		case *types.Chan:
+			capv := IntLit(0)
 			if len(call.Args) > 1 {
-				x.eval(st, call.Args[1])
+				capv = x.eval(st, call.Args[1]).T
+				x.oblige(st, "make", x.srcOf(call)+".chansize", Cmp(">=", capv, IntLit(0)), call)
 			}
 			r := x.alloc(st)
+			x.assume(st, Eq(x.uf("chancap", SInt, r), capv))
 			x.u.DeclFun("chantype", "(Int) Int")
 			x.fact(Eq(App(SInt, "chantype", r), IntLit(int64(x.u.TypeID(tt.Elem())))))
 			// a new channel is open and nothing was sent on it
